@@ -29,8 +29,18 @@ def r1_registry(chk: Check):
 
     def classify(n):
         t = src(n.ast)
+        if any(isinstance(x, ast.NamedExpr) for x in ast.walk(n.ast)):
+            class W(ast.NodeTransformer):
+                def visit_NamedExpr(self, x):
+                    return self.visit(x.value)
+            from ..astq import ast_copy
+            t = src(W().visit(ast_copy(n.ast)))
         if t == "self.exitmode":
             return ("exitmode", True)
+        if t in ("self.jobs.get(job.identifier) is None", "self.jobs.get(job.identifier, None) is None"):
+            return ("present", False)
+        if t in ("self.jobs.get(job.identifier)", "self.jobs.get(job.identifier, None)"):
+            return ("present", True)
         if t in ("job.identifier in self.jobs",):
             return ("present", True)
         if t in ("job.identifier not in self.jobs",):
